@@ -30,6 +30,7 @@ CONSTANTS
     MaxRetry,      \* the code's constant (2): retry < MaxRetry
     AttemptBound,  \* the contract's bound on attempts / connections per query (4)
     Dev,           \* set of further deviation switches (non-vacuity configs only), {} in every real config
+    Eager,         \* TRUE: the environment moves only when the code cannot (leg B generator)
     NoWgWait,      \* deviation: later callers do not wait for the early callers
     ExactScan,     \* TRUE: a new connection is dialled only if no pooled one can take the query (leg A)
     MaxFaults, Kinds, CancelCalls, EnvTClose, OrderedStart, WithHist
@@ -308,11 +309,19 @@ CallProgress(c) ==
     GetRX(c) \/ EarlyWake(c) \/ EarlyCtx(c) \/ ExchReq(c) \/ ExchFail(c) \/ ExchCtx(c) \/ Retry(c) \/ Fail(c)
 CloserStep == TCloseLock \/ (\E x \in ConnIds : TCloseOne(x)) \/ TCloseEnd
 
-Next ==
-    \/ \E c \in Calls : Start(c) \/ CallProgress(c) \/ ExchOk(c) \/ Cancel(c)
-    \/ \E x \in ConnIds : DialInvoke(x, x) \/ DialOk(x) \/ DialErr(x) \/ DialCloseLate(x)
+\* steps of the code (a dead or closed connection fails its exchanges by itself)
+CodeStep ==
+    \/ \E c \in Calls : GetRX(c) \/ EarlyWake(c) \/ EarlyCtx(c) \/ ExchReq(c) \/ ExchCtx(c) \/ Retry(c) \/ Fail(c)
+                          \/ (pc[c] = "exch" /\ UDead(cur[c]) /\ ExchFail(c))
+    \/ \E x \in ConnIds : DialInvoke(x, x) \/ DialCloseLate(x)
+    \/ CloserStep
+EnvStep ==
+    \/ \E c \in Calls : Start(c) \/ ExchOk(c) \/ ExchFail(c) \/ Cancel(c)
+    \/ \E x \in ConnIds : DialOk(x) \/ DialErr(x)
     \/ \E x \in ConnIds, k \in Kinds : Kill(x, k)
-    \/ TCloseStart \/ CloserStep
+    \/ TCloseStart
+
+Next == CodeStep \/ (EnvStep /\ (Eager => ~ENABLED CodeStep))
 
 Spec == Init /\ [][Next]_vars
 
